@@ -450,6 +450,52 @@ pub fn run(cx: &mut Cx) {
         }
     }
 
+    // Exhaustive small scope: every pattern of length <= 4 (quick) / 5
+    // (thorough) over a b * ? [ ] ! - against every name of length <= 3
+    // over a b - (patterns outside the subset are skipped inside the body).
+    if cx.tier != Tier::Mini {
+        let maxlen = cx.pick_tier(2usize, 3, 4, 5);
+        let alpha = ['a', 'b', '*', '?', '[', ']', '!', '-'];
+        let mut names: Vec<(String, &'static str)> = vec![(String::new(), "exh")];
+        let mut layer = vec![String::new()];
+        for _ in 0..3 {
+            let mut next = vec![];
+            for s in &layer {
+                for c in ['a', 'b', '-'] {
+                    next.push(format!("{s}{c}"));
+                }
+            }
+            names.extend(next.iter().map(|n| (n.clone(), "exh")));
+            layer = next;
+        }
+        let mut stack: Vec<String> = vec![String::new()];
+        let mut idx = 0u64;
+        let mut total = 0u64;
+        while let Some(s) = stack.pop() {
+            if s.chars().count() < maxlen {
+                for c in alpha {
+                    stack.push(format!("{s}{c}"));
+                }
+            }
+            if s.is_empty() || s.contains("**") {
+                continue;
+            }
+            idx += 1;
+            if !cx.mine(idx) {
+                continue;
+            }
+            total += 1;
+            cx.check(
+                || format!("exhaustive pattern {s:?} x {} names over {{a,b,-}} of length <= 3", names.len()),
+                |ev| {
+                    ev.count("workload/exhaustive");
+                    check_glob_or_plain(ev, &s, &names)
+                },
+            );
+        }
+        cx.ev.add("exhaustive/patterns", total);
+    }
+
     // Corpus: real glob patterns against real names.
     if cx.tier != Tier::Mini {
         let pats: Vec<String> = corpus::patterns()
